@@ -1,4 +1,6 @@
 CONSTANTS
+  NParts = 1
+  Part = 0
   NConns = 1
   NUp = 0
   NDown = 0
@@ -10,6 +12,7 @@ CONSTANTS
   StdinClose = TRUE
   Mode = "socks"
   DialFails = FALSE
+  SfScripted = TRUE
   EnvLite = TRUE
   AsIs_Spin = FALSE
   AsIs_SharedConfig = FALSE
